@@ -4,7 +4,7 @@ Oracle: round trip through an independent encoder of the GCC / Clang Makefile di
 
 MANIFEST = {'engine': 'nprobe', 'category': 'exploration', 'technique': 'runtime monitoring: round-trip oracle (independent GCC/Clang depfile encoder -> real DepfileParser under ASan/UBSan), exhaustive short names + random lists, minimal-n-gram attribution', 'text': 'Names are encoded the way GCC (mkdeps munge) and Clang (PrintFilename) write them, laid out in 8 layouts x LF/CRLF, parsed by the real DepfileParser and compared name by name. Exhaustive over names of <=3 (quick) / <=4 (thorough) symbols of the escape alphabet in every position; random lists over printable ASCII + high bytes. Each failing name is reduced to the minimal byte sequence (n<=3) that fails on its own, so one known bad byte cannot mask another defect.', 'note': "Trusted: the encoder in vlib/checks/c15.py (follows the two compilers' source), the domain rules (names ending in backslash/colon, NUL/newline/tab are not expressible). Known findings: 8 byte sequences (see known_findings.txt).", 'ref': 'DESIGN.md §5 C15'}
 
-import itertools, random
+import os, itertools, random
 from .. import build, util, core
 
 PROBE_SRCS = ["nprobe.cc", "probe_depfile.cc"]
@@ -209,6 +209,8 @@ def run(ctx):
         dialect = rng.choice(list(DIALECTS))
         lay = rng.choice(LAYOUTS)
         T, D = [b"out/target_object.o"], list(names)
+        if rng.random() < 0.6:
+            rng.shuffle(D)          # a name that is the beginning of another one listed before it (foo.hpp foo.h) and after it
         if rng.random() < 0.5:
             D.append(rng.choice(names))            # one of them twice: must come back once
         cases.append(("rand", (dialect, lay, False), layout(T, D, dialect, lay, b"\n"), (T, dedup(D))))
@@ -368,11 +370,103 @@ def run(ctx):
             if not (r and r[0] == "ok" and r[1] == expect[0] and r[2] == expect[1]):
                 ctx.violation("C15/list-mismatch/%s/%s" % (dialect, lay), "depfile %r: expected %r got %r" % (util.show(content), expect, r),
                               {"content_hex": content.hex()})
+    through_the_binary(ctx, rng, 150 if ctx.tier == "quick" else 3000)
     ctx.counters["exhaustive_cases"] = nexh
     ctx.counters["suspect_cases"] = len(suspects)
     ctx.assumptions = ["encoder follows libcpp mkdeps.c munge() and clang DependencyFile.cpp PrintFilename()",
                        "names ending in '\\' or ':' or containing NUL/newline/CR/tab are outside the domain (no Makefile can spell them)",
                        "a literal backslash-colon where the dialect does not escape ':' is ambiguous and not generated"]
+
+
+def through_the_binary(ctx, rng, n):
+    """The names have to arrive where they are used, not only leave the parser intact: a statement with deps = gcc whose
+    command drops a depfile in one of the dialects; the real (sanitised) binary reads it when the command finishes, records the
+    names in the deps log, and `ninja -t deps` lists what it recorded.  Dependencies are also spelled the way compilers spell
+    them when the include path has '.', '..' or doubled slashes in it ('./inc.h', 'sub/../inc.h', 'dir//x.h'): the name read back
+    is the lexically equal canonical one.  Bytes that are known to cut a name in the parser itself (known findings) are left out."""
+    from .. import e2e
+    KNOWN_BAD = b"*;<>^`|"
+    def one(k):
+        r = random.Random(rng.randint(0, 2 ** 60) if False else (ctx.seed * 1000003 + k))
+        dialect = r.choice(list(DIALECTS))
+        te, de = DIALECTS[dialect]
+        nd = r.choice((1, 2, 3, 5, 9))
+        names = []
+        while len(names) < nd:
+            segs = []
+            for _ in range(r.choice((1, 1, 2, 3))):
+                L = r.choice((1, 2, 3, 6, 12))
+                pool = b"abcXYZ019._-+" * 3 + b" #$%:\\" + bytes([0xc3, 0xa9, 0xff])
+                sg = bytes(r.choice(pool) for _ in range(L))
+                if sg in (b".", b"..") or not sg:
+                    sg = b"d" + sg
+                segs.append(sg)
+            nm = b"/".join(segs)
+            if not in_domain(nm, de) or any(c in nm for c in KNOWN_BAD) or b"\\$" in nm or nm in names or nm.startswith(b" ") or nm == b"in.c":
+                continue
+            # (a name may not end in a blank either: 'ninja -t deps' prints one name per line, a trailing blank would be invisible)
+            if nm.endswith(b" "):
+                continue
+            names.append(nm)
+        # how the compiler spells each of them
+        spelled = []
+        for nm in names:
+            x = r.random()
+            if x < 0.35:
+                sp = b"./" + nm
+            elif x < 0.5 and b"/" in nm:
+                sp = nm.replace(b"/", b"//", 1)
+            elif x < 0.65:
+                sp = b"sub/../" + nm
+            elif x < 0.75 and b"/" in nm:
+                sp = nm.replace(b"/", b"/./", 1)
+            else:
+                sp = nm
+            spelled.append(sp)
+        lay = r.choice(LAYOUTS)
+        content = layout([b"out.o"], spelled, dialect, lay, r.choice((b"\n", b"\r\n")))
+        t = e2e.Tree()
+        try:
+            with open(os.path.join(t.d, "pre.d"), "wb") as f:
+                f.write(content)
+            with open(os.path.join(t.d, "in.c"), "w") as f:
+                f.write("// in\n")
+            with open(os.path.join(t.d, "build.ninja"), "w") as f:
+                f.write("rule cc\n  command = cp pre.d out.o.d && cp in.c out.o\n  deps = gcc\n  depfile = out.o.d\nbuild out.o: cc in.c\n")
+            rc, so, se = t.run(["out.o"])
+            rep = {"content_hex": content.hex(), "through": "ninja -t deps"}
+            txt = (so + se).decode("latin-1")
+            sig = util.san_signature(txt)
+            if sig:
+                return ("C15/through-the-binary/sanitizer/" + sig, "depfile %r: %s" % (util.show(content), txt[-800:]), rep)
+            if rc != 0:
+                return ("C15/through-the-binary/build-failed/%s/%s" % (dialect, lay), "depfile %r: %s" % (util.show(content), txt[-300:]), rep)
+            rc, so, se = t.run(["-t", "deps", "out.o"])
+            got = [ln[4:] for ln in so.split(b"\n") if ln.startswith(b"    ")]
+            if got != names:
+                return ("C15/through-the-binary/names-differ/%s" % dialect,
+                        "depfile %r: recorded %r, expected %r" % (util.show(content), [util.show(x) for x in got], [util.show(x) for x in names]), rep)
+            rc, so, se = t.run(["out.o"])
+            if b"no work to do" not in so:
+                # the names do not exist as files: recorded dependencies that are missing make the statement dirty - that is the
+                # documented behaviour, so nothing is judged here beyond the names themselves
+                pass
+            return ("ok", any(a != b_ for a, b_ in zip(names, spelled)), len(names))
+        finally:
+            t.close()
+    res = e2e.parallel(one, list(range(n)))
+    for r_ in res:
+        if r_ is None:
+            ctx.inconclusive += 1
+            continue
+        ctx.evaluations += 1
+        if r_[0] == "ok":
+            ctx.count("through_the_binary_lists_ok")
+            ctx.count("through_the_binary_names", r_[2])
+            if r_[1]:
+                ctx.count("through_the_binary_lists_with_respelled_names")
+        else:
+            ctx.violation(r_[0], r_[1], r_[2])
 
 
 def replay(ctx, path):
